@@ -166,8 +166,9 @@ func c07Gen(t *rapid.T) C07Case {
 // planned operations on another goroutine and joins them (with a grace
 // period: an implementation may legitimately hold a lock for the whole
 // request, in which case the operation completes after the response).
-func runWithPlan(m *cors.Middleware, req Req, plan map[string][]COp, order *[]COp, cfgResults *[]cfgObs) Resp {
+func runWithPlan(m *cors.Middleware, req Req, plan map[string][]COp, order *[]COp, cfgResults *[]cfgObs) (Resp, bool) {
 	var pending sync.WaitGroup
+	timedOut := false
 	inject := func(point string) {
 		for _, o := range plan[point] {
 			o := o
@@ -184,8 +185,10 @@ func runWithPlan(m *cors.Middleware, req Req, plan map[string][]COp, order *[]CO
 				if o.Kind == "config" {
 					*cfgResults = append(*cfgResults, cfgObs{after: idx - 1, json: res, exact: true})
 				}
-			case <-time.After(200 * time.Millisecond):
-				// the operation is blocked by the request in flight; carry on
+			case <-time.After(time.Second):
+				// the operation is blocked by the request in flight (or the machine is overloaded); carry on.
+				// From here on operations may complete out of order, so the schedule is no longer owned.
+				timedOut = true
 			}
 		}
 	}
@@ -203,7 +206,7 @@ func runWithPlan(m *cors.Middleware, req Req, plan map[string][]COp, order *[]CO
 	}
 	m.Wrap(sp).ServeHTTP(rec, hr)
 	pending.Wait()
-	return Resp{Status: rec.FinalStatus(), Hdr: rec.Final(), Body: string(rec.Body), Called: sp.called}
+	return Resp{Status: rec.FinalStatus(), Hdr: rec.Final(), Body: string(rec.Body), Called: sp.called}, timedOut
 }
 
 type cfgObs struct {
@@ -221,8 +224,14 @@ func c07Check(c C07Case, rec *Recorder) *Disc {
 	m := freshMW(s0)
 	var order []COp
 	var cfgRes []cfgObs
-	got := runWithPlan(m, req, c.Plan, &order, &cfgRes)
+	got, timedOut := runWithPlan(m, req, c.Plan, &order, &cfgRes)
 	rec.Eval(1)
+	if timedOut {
+		// an injected operation did not complete within the grace period: later operations may have overtaken it,
+		// so the sequential model of this case does not apply. Never a verdict.
+		rec.Class("case-not-judged-operation-timed-out")
+		return nil
+	}
 	// states that were current between the request's start and its end
 	states := []dbgState{s0}
 	for _, o := range order {
@@ -231,7 +240,7 @@ func c07Check(c C07Case, rec *Recorder) *Disc {
 	var sigs []string
 	match := -1
 	for i, s := range states {
-		want := runWithPlan(freshMW(s), req, nil, new([]COp), new([]cfgObs))
+		want, _ := runWithPlan(freshMW(s), req, nil, new([]COp), new([]cfgObs))
 		sigs = append(sigs, want.Sig())
 		if want.Sig() == got.Sig() && match < 0 {
 			match = i
@@ -299,7 +308,7 @@ func TestC07(t *testing.T) {
 			"(k-th ResponseWriter.Header() call, WriteHeader, Write, entry of the wrapped handler) 1-4 operations from {Reconfigure(cfg), Reconfigure(nil), Reconfigure(invalid), SetDebug(b), Config()} run to completion on another goroutine. " +
 			"Oracle: the response equals the response of a FRESH middleware in one single (configuration, debug) state that was current between request start and end; every injected Config() equals the normal form of the state current at that moment; the final state matches the model. " +
 			"non-trivial = the candidate states answer the request differently and at least two operations ran or one ran after the first hand-over; distinct by (start, request, plan).",
-		Assumptions: []string{"operations injected at a hand-over point are joined with a 200 ms grace period; the timeout only chooses a schedule and is never a verdict",
+		Assumptions: []string{"operations injected at a hand-over point are joined with a 1 s grace period; a case in which one of them times out is not judged at all (later operations may overtake it), so the timeout is never a verdict",
 			"interleavings between hand-over points are only sampled by the stress part"}}.Run(t)
 }
 
